@@ -148,9 +148,24 @@ func (i *interpreter) global(g *ssa.Global) *value {
 		}
 	}
 	if g.Name() != "init$guard" {
+		if !initAllowed(pkg.Pkg.Path()) && !i.inInit() {
+			// reading a variable of a package whose initialiser is not run
+			// would silently see a zero value: make it loud
+			panic(engineAbort{"unsupported: read of global " + g.String() + " of a package whose init is not modelled" + i.stackString()})
+		}
 		i.ensureInit(pkg)
 	}
 	return i.globals[g]
+}
+
+// inInit reports whether a package initialiser is on the call stack.
+func (i *interpreter) inInit() bool {
+	for _, f := range i.stack {
+		if f.Name() == "init" && f.Synthetic != "" {
+			return true
+		}
+	}
+	return false
 }
 
 func (i *interpreter) posString(pos token.Pos, fn *ssa.Function) string {
